@@ -314,13 +314,12 @@ Definition np_float_names : list pstr := [s "float16"; s "float32"; s "float64";
 Definition coerce_key (m c : pstr) (text : pstr) : res scalar :=
   let q := qual m c in
   if pstr_eqb q (s "builtins.str") then Ok (SStr text) else
-  if pstr_eqb q (s "builtins.bool") then Ok (SBool (match text with [] => false | _ => true end)) else
+  if pstr_eqb q (s "builtins.bool") then Ok (SBool (pstr_eqb text (s "true"))) else      (* _construct_key: key == "true" *)
   if pstr_eqb q (s "builtins.int") || (is_np_mod m && mem c np_int_names) then
     match parse_int text with Some z => Ok (SInt z) | None => Raise EValue end else
   if pstr_eqb q (s "builtins.float") || (is_np_mod m && mem c np_float_names) then
     match float_of_text text with Some f => Ok (SFloat f) | None => Raise EValue end else
-  if is_np_mod m && (pstr_eqb c (s "bool") || pstr_eqb c (s "bool_")) then
-    Ok (SBool (match text with [] => false | _ => true end)) else
+  if is_np_mod m && (pstr_eqb c (s "bool") || pstr_eqb c (s "bool_")) then Ok (SBool (pstr_eqb text (s "true"))) else
   if is_np_mod m && pstr_eqb c (s "str_") then Ok (SStr text) else
   Raise EDomain.
 
